@@ -296,7 +296,7 @@ func (d *restDriver) jobOCRA(c *ctx, tag string, probe bool, validate bool) job 
 			code = "000000"
 		}
 		if c.rng.Intn(3) == 0 {
-			code = c.edit(code, []string{"flip", "fliplast", "droplast", "append0", "leadplus"}[c.rng.Intn(5)])
+			code = c.edit(code, []string{"flip", "fliplast", "droplast", "append0", "leadplus", "prespace", "postnl", "leadspace", "postnul", "double"}[c.rng.Intn(10)])
 		}
 		if strings.TrimSpace(code) == "" {
 			code = "0"
@@ -474,6 +474,29 @@ func restScenC18(d *restDriver, c *ctx) {
 				ev.Orc = allAlgWindow(key, step, margin)
 			}})
 		}
+	}
+	// the right code wrapped in white space is not the code (on each of the three validation endpoints)
+	for i, wrap := range [][2]string{{" ", ""}, {"", " "}, {"", "\n"}, {"\t", ""}, {" ", " "}, {"", "\r\n"}} {
+		key := c.randBytes(20)
+		sec := b32(key)
+		ctr := uint64(1000 + i)
+		qh := newRReq()
+		qh.Secret, qh.Counter, qh.Code = rfStr(sec), rfNum(ctr), rfStr(wrap[0]+refHOTP(key, ctr, 6, 0)+wrap[1])
+		d.do(seq, job{scn: fmt.Sprintf("C18/wrapcode/h/%d", i), method: "POST", path: "/hotp/validate", cls: "typed", q: qh, fill: func(ev *restEvent) { ev.Orc = allAlgWindow(key, ctr, 2+margin) }})
+		ts := int64(90000 + 30*i)
+		qt := newRReq()
+		qt.Secret, qt.Timestamp, qt.Code = rfStr(sec), rfInt(ts), rfStr(wrap[0]+refHOTP(key, uint64(ts)/30, 6, 0)+wrap[1])
+		step := uint64(ts) / 30
+		d.do(seq, job{scn: fmt.Sprintf("C18/wrapcode/t/%d", i), method: "POST", path: "/totp/validate", cls: "typed", q: qt, fill: func(ev *restEvent) {
+			ev.Step0 = W64(step)
+			ev.Orc = allAlgWindow(key, step, margin)
+		}})
+		j := d.jobOCRA(c, fmt.Sprintf("C18/wrapcode/o/%d", i), false, true)
+		if j.q.Code.P {
+			g := strings.TrimSpace(string(j.q.Code.S))
+			j.q.Code = rfStr(wrap[0] + g + wrap[1])
+		}
+		d.do(seq, j)
 	}
 	// provisioning URLs: the full grid type x hash x digits x period present/absent
 	for _, typ := range []string{"totp", "hotp"} {
